@@ -83,6 +83,11 @@ def hostile_dgram(r, state):
         code = r.choice([2, 2, 5, 0x44, 1])
     if state != "client" or r.random() < 0.2:
         opts.append((11, path))
+    if r.random() < 0.15:
+        # values full of characters that the path / query reconstruction has to escape (sizes of
+        # the reconstructed strings are computed in one pass and written in another)
+        ch = r.choice([b"&", b"&", b" ", b"%", b"/", b"?", b"\xff", b"=", b"#"])
+        opts.append((r.choice([15, 15, 11]), ch * r.choice([1, 7, 50, 100, 200, 255])))
     if r.random() < 0.12:
         # option area larger than the 256-byte initial PDU allocation (copies / duplicates of the
         # request are made for observe registrations, block-wise state, async, caches)
@@ -120,6 +125,87 @@ def summary_of(err):
     if m:
         return m.group(0)[:300]
     return re.sub(r"\s+", " ", err)[:300]
+
+
+def block_sequence(r):
+    """Block1 uploads to /put with hostile NUM orders (descending, gaps, repeats), M mostly set,
+    full-size blocks: drives the received-block range array and the reassembly buffer"""
+    szx = r.choice([0, 2, 2, 2, 6])
+    size = 16 << szx
+    style = r.choice(["desc", "desc2", "rand", "gaps", "same"])
+    n = r.choice([4, 5, 6, 8, 12])
+    if style == "desc":
+        nums = [60 - 2 * i for i in range(n)]
+    elif style == "desc2":
+        nums = [r.choice([1000, 100, 40]) - 3 * i for i in range(n)]
+    elif style == "gaps":
+        nums = [2 * i + (i % 3) for i in range(n)]
+        r.shuffle(nums)
+    elif style == "same":
+        nums = [r.choice([0, 1, 5])] * n
+    else:
+        nums = [r.randrange(0, 70) for _ in range(n)]
+    out = []
+    tok = gen_wire.rbytes(r, r.choice([0, 2, 2, 8]))
+    for i, num in enumerate(nums):
+        m = 0 if (i == n - 1 and r.random() < 0.5) else 1
+        v = (max(num, 0) << 4) | (m << 3) | szx
+        bv = v.to_bytes(max(1, (v.bit_length() + 7) // 8), "big")
+        opts = [(11, b"put"), (27, bv)]
+        if r.random() < 0.3:
+            opts.append((60, r.choice([b"", b"\x40", b"\x01\x00", b"\xff\xff\xff\xff"])))
+        if r.random() < 0.3:
+            opts.append((292, gen_wire.rbytes(r, r.choice([0, 1, 8]))))
+        opts.sort(key=lambda o: o[0])
+        pl = gen_wire.rbytes(r, size if m or r.random() < 0.5 else r.randrange(1, size + 1))
+        out.append(gen_wire.py_serialize("udp", r.choice([0, 0, 1]), r.choice([3, 3, 2]), 0x2000 + i,
+                                         tok if r.random() < 0.8 else gen_wire.rbytes(r, 2), opts, pl))
+    return out
+
+
+def run_cases_watchdog(exe, cases, env, batch_timeout=90, case_timeout=20):
+    """run_lines_robust with hang detection: a batch that does not finish in time is re-run case by
+    case; a case that does not finish in case_timeout seconds gets the result 'CRASH hang'"""
+    outs, crashes = [], []
+    hangs = 0
+    for off in range(0, len(cases), 250):
+        part = cases[off:off + 250]
+        if hangs >= 3:
+            # three hanging cases are reported; the rest of the stage is not run
+            outs.extend(["<skipped after hangs>"] * len(part))
+            continue
+        try:
+            rc, out, err = vlib.run_lines(exe, [], part, timeout=batch_timeout, env=env)
+            ok = rc == 0 and len([x for x in out if x != ""]) >= len(part)
+        except subprocess.TimeoutExpired:
+            ok = False
+            rc, out, err = -999, [], "timeout"
+        if ok:
+            outs.extend(out[:len(part)])
+            continue
+        if rc != -999:
+            o1, c1 = vlib.run_lines_robust(exe, part, env=env, timeout=batch_timeout)
+            if not any("timeout" in e for (_, _, e) in c1):
+                outs.extend(o1)
+                crashes.extend((off + ci, r1, e) for (ci, r1, e) in c1)
+                continue
+        for k, ln in enumerate(part):
+            if hangs >= 3:
+                outs.append("<skipped after hangs>")
+                continue
+            try:
+                rc1, out1, err1 = vlib.run_lines(exe, [], [ln], timeout=case_timeout, env=env)
+                if rc1 == 0 and out1 and out1[0] != "":
+                    outs.append(out1[0])
+                else:
+                    outs.append("CRASH rc=%d" % rc1)
+                    crashes.append((off + k, rc1, vlib.err_digest(err1)))
+            except subprocess.TimeoutExpired:
+                hangs += 1
+                outs.append("CRASH hang")
+                crashes.append((off + k, -999, "SUMMARY: the driver did not finish this case within %d s "
+                                "(endless loop / no progress)" % case_timeout))
+    return outs, crashes
 
 
 def valgrind_scan(run, exe, lines):
@@ -247,7 +333,10 @@ def main(run):
     ncorp = len(cases)
     for i in range(700 if quick else 20000):
         st = STATES[i % len(STATES)]
-        ds = [hostile_dgram(r, st) for _ in range(r.choice([1, 1, 2, 3, 4, 6]))]
+        if st in ("fresh", "blk1", "osc") and i % 4 == 0:
+            ds = block_sequence(r)
+        else:
+            ds = [hostile_dgram(r, st) for _ in range(r.choice([1, 1, 2, 3, 4, 6]))]
         cases.append("hz %s %s" % (st, " ".join(d.hex() if d else "-" for d in ds)))
     # reference verdict per datagram
     dl = []
@@ -255,7 +344,7 @@ def main(run):
         for h in c.split()[2:]:
             dl.append("c02 udp " + h)
     dv, _ = vlib.run_lines_robust(model, dl)
-    out, crashes = vlib.run_lines_robust(hz, cases, env=asan_env, timeout=1800)
+    out, crashes = run_cases_watchdog(hz, cases, asan_env)
     k = 0
     nviol = 0
     for ci, c in enumerate(cases):
@@ -367,11 +456,7 @@ def main(run):
     # one driver process per 250 streams: the driver keeps a few descriptors per case open and
     # libcoap's WebSocket close path uses select(), i.e. FD_SET, which is only defined for
     # descriptors below FD_SETSIZE (1024) - a limit of the library that is not peer-controlled
-    to, tcr = [], []
-    for off in range(0, len(tl), 250):
-        o1, c1 = vlib.run_lines_robust(hs, tl[off:off + 250], env=asan_env, timeout=1800)
-        to.extend(o1)
-        tcr.extend((off + ci, rc, e) for (ci, rc, e) in c1)
+    to, tcr = run_cases_watchdog(hs, tl, asan_env)
     ntcp = 0
     for i, ln in enumerate(tl):
         run.count(ln, True)
